@@ -212,7 +212,8 @@ def make_alias(case):
         from dissect.cstruct.exceptions import ResolveError
         cs = cstruct()
         names = ["n0", "n1", "n2", "n3"][:case["names"]]
-        real = [cs.uint8, cs.int8, cs.int32]
+        strs = cs._make_array(cs.char, None)
+        real = [cs.uint8, cs.int8, cs.int32, cs._make_array(strs, 2), cs._make_array(strs, 3)]   # the last two: same kind, size None
         options = real + names + ["zz_unknown"]
         table = {}
         for i, nm in enumerate(names):
@@ -282,11 +283,42 @@ def _rebinds(cs, nm, t):
     return cs.resolve(nm) is t
 
 
+LOAD_A = "struct native { uint8 tag; uint64 big; };\n"
+LOAD_B = "struct test { uint8 a; uint32 b; uint16 c; uint8 d:3; uint8 e:5; };\n"
+
+
+def make_load_options(case):
+    """Options of one load() call do not leak into later load() calls on the same object."""
+    from dissect.cstruct import cstruct
+    first_kw, cfg = case["first_kw"], case["cfg"]
+    base_names = set(cstruct().typedefs)
+
+    def run(ctx):
+        a = cstruct(endian=cfg["endian"])
+        a.load(LOAD_A, **first_kw)
+        a.load(LOAD_B)                      # defaults: compiled, packed
+        b = cstruct(endian=cfg["endian"])
+        b.load(LOAD_B)
+        sa, _ = signature(a, base_names | {"native"})
+        sb, _ = signature(b, base_names)
+        ctx.check("a later load() uses its own options (layout as when loaded alone)", sa == sb, _diff(sa, sb))
+        ctx.check("a later load() uses its own options (reader kind)", bool(a.test.__compiled__) == bool(b.test.__compiled__))
+        data = ctx.bytes("b", 12)
+        ra, rb = _parse(a.test, ctx.stream(data)), _parse(b.test, ctx.stream(data))
+        ctx.check("same parse outcome", ra[0] == rb[0])
+        if ra[0] == rb[0] == "value":
+            ctx.check("same values and position", R.And(generic_eq(ra[1], rb[1]), ra[2] == rb[2]))
+    return run
+
+
 def cases(tier, seed):
     import random
+    for kw in ({"align": True}, {"compiled": False}, {"align": True, "compiled": False}):
+        for e in "<>":
+            yield {"label": f"load-options {kw}", "first_kw": kw, "cfg": {"endian": e}, "make": "make_load_options"}
     cfgs = [{"endian": "<", "align": False, "compiled": True}, {"endian": ">", "align": True, "compiled": False}]
     nn = 3 if tier == "quick" else 4
-    for first in range(nn + 4):
+    for first in range(nn + 6):
         yield {"label": f"alias tables names={nn} first-target={first}", "make": "make_alias", "names": nn, "first": first}
     rng = random.Random(seed)
     for cname, units in CORPUS.items():
